@@ -646,6 +646,19 @@ pub fn library() -> &'static Vec<Pkg> {
                 is_component: true,
             });
         }
+        for (name, version, world, deps) in WIT_COMPONENTS_4 {
+            let bytes = build_wit(world, deps)
+                .unwrap_or_else(|e| panic!("corpus component {name} does not build: {e:?}"));
+            let (imports, exports) = names_of(&bytes);
+            v.push(Pkg {
+                name,
+                version: *version,
+                bytes,
+                imports,
+                exports,
+                is_component: true,
+            });
+        }
         // derived: a library component with one stored bit flipped that stays valid but becomes
         // unusual (found by the single-fault enumeration); kept only if it still validates
         for (name, base, offset, bit) in DERIVED {
@@ -673,6 +686,16 @@ pub fn library() -> &'static Vec<Pkg> {
         v
     })
 }
+
+/// Fourth generation: a component for a world whose WIT lives in a directory with `deps/`.
+pub const DEMO_TYPES_WIT: &str = "package demo:types;\ninterface api { f: func(); record r { a: u8 } g: func(x: r); }\n";
+pub const DEMO_MAIN_WIT: &str = "package demo:main;\nworld w { import demo:types/api; export run: func(); }\nworld other { export run: func(); }\n";
+const WIT_COMPONENTS_4: &[(&str, Option<&str>, &str, &[&str])] = &[(
+    "test:deps-user",
+    None,
+    "package demo:main;\nworld w { import demo:types/api; export run: func(); }",
+    &["package demo:types {\n interface api { f: func(); record r { a: u8 } g: func(x: r); }\n}"],
+)];
 
 /// (new name, base component, byte offset, bit)
 const DERIVED: &[(&str, &str, usize, u8)] = &[
